@@ -135,7 +135,16 @@ def data_cov(spec, x, theta):
 
 # ------------------------------------------------------------------ mean functions
 def mean_n_params(name, d):
-    return {"Constant": 1, "Linear": 1 + d, "Quadratic": 1 + 2 * d}[name]
+    return {"Constant": 1, "Linear": 1 + d, "Quadratic": 1 + 2 * d, "UserDecay": 2}[name]
+
+
+def user_decay(q, theta, x_train):
+    """A user-written mean (the documented extension point), non-linear in its second hyper-parameter:
+    m(x) = c * exp(-k * s(x)),  s(x) = (x_0 - min x_0) / range of x_0 over the training inputs."""
+    x0 = np.asarray(x_train, float)[:, 0]
+    rng_ = np.ptp(x0) or 1.0
+    sx = (np.atleast_2d(np.asarray(q, float))[:, 0] - x0.min()) / rng_
+    return theta[0] * np.exp(-theta[1] * sx)
 
 
 def mean(name, q, theta, x_train):
@@ -144,6 +153,8 @@ def mean(name, q, theta, x_train):
     d = q.shape[1]
     if name == "Constant":
         return np.full(q.shape[0], theta[0])
+    if name == "UserDecay":
+        return user_decay(q, theta, x_train)
     dq = q - xbar
     if name == "Linear":
         return theta[0] + dq @ theta[1:1 + d]
